@@ -165,7 +165,25 @@ class SymStr(str):
     def _unmodelled(self, *a: Any, **k: Any) -> Any:
         raise Unsupported("string method not modelled on a symbolic string")
 
-    lower = upper = split = rsplit = replace = find = index = count = isalpha = isalnum = join = partition = _unmodelled  # type: ignore[assignment]
+    def _ascii_only(self, what: str) -> None:
+        for c in self.chars:
+            if not isinstance(c, int) and cur().branch(c >= 128):
+                raise Unsupported(f"str.{what} of a non-ASCII symbolic character (Unicode case tables are not modelled)")
+
+    def lower(self) -> "SymStr":  # type: ignore[override]
+        self._ascii_only("lower")
+        return SymStr([z3.If(z3.And(c >= 65, c <= 90), c + 32, c) for c in self.chars])
+
+    def upper(self) -> "SymStr":  # type: ignore[override]
+        self._ascii_only("upper")
+        return SymStr([z3.If(z3.And(c >= 97, c <= 122), c - 32, c) for c in self.chars])
+
+    def isalpha(self) -> bool:  # type: ignore[override]
+        self._ascii_only("isalpha")
+        return bool(self.chars) and all(
+            cur().branch(z3.Or(z3.And(c >= 65, c <= 90), z3.And(c >= 97, c <= 122))) for c in self.chars)
+
+    split = rsplit = replace = find = index = count = isalnum = join = partition = _unmodelled  # type: ignore[assignment]
     translate = casefold = title = swapcase = zfill = center = ljust = rjust = encode = format = splitlines = _unmodelled  # type: ignore[assignment]
 
     def concrete(self, m: Any) -> str:
